@@ -82,14 +82,19 @@ def faults_for_key(key, bodies, upload_bodies, quick):
                 out.append({'at': key, 'phase': 'mid', 'kind': 'exc', 'bytes': b})
         # a non-connection OSError (EIO, EPERM, ENOSPC...) is not a retryable stream error
         out.append({'at': key, 'phase': 'before', 'kind': 'oserror'})
+        # an exception of a type the library gives a meaning to (CancelledError = concurrent.futures.CancelledError, FatalError)
+        # raised by a step of a transfer that was never cancelled is a failure like any other
+        out.append({'at': key, 'phase': 'before', 'kind': 'cancelled_exc'})
         if key in bodies:
             n = bodies[key]
             for b in sorted({0, 1, n // 2, n}):
                 out.append({'at': key, 'phase': 'body', 'kind': 'exc', 'bytes': b})
             out.append({'at': key, 'phase': 'body', 'kind': 'oserror', 'bytes': n // 2})
+            out.append({'at': key, 'phase': 'body', 'kind': 'fatal_exc', 'bytes': n // 2})
     elif '/src:read' in key:
         out.append({'at': key, 'phase': 'before', 'kind': 'exc'})
         out.append({'at': key, 'phase': 'after', 'kind': 'exc'})
+        out.append({'at': key, 'phase': 'after', 'kind': 'cancelled_exc'})
     elif '/dst:write' in key or '/fs:write' in key:
         out.append({'at': key, 'phase': 'before', 'kind': 'oserror'})
         out.append({'at': key, 'phase': 'after', 'kind': 'oserror'})
@@ -97,11 +102,13 @@ def faults_for_key(key, bodies, upload_bodies, quick):
         # failure, not a retryable download-stream error
         out.append({'at': key, 'phase': 'before', 'kind': 'brokenpipe'})
         out.append({'at': key, 'phase': 'before', 'kind': 'timeouterr'})
+        out.append({'at': key, 'phase': 'before', 'kind': 'fatal_exc'})
     elif '/fs:' in key:
         out.append({'at': key, 'phase': 'before', 'kind': 'oserror'})
     elif '/cb:on_queued' in key or '/cb:on_progress' in key:
         out.append({'at': key, 'phase': 'before', 'kind': 'exc'})
         out.append({'at': key, 'phase': 'before', 'kind': 'oserror'})
+        out.append({'at': key, 'phase': 'before', 'kind': 'cancelled_exc'})
     return out
 
 
